@@ -774,9 +774,11 @@ pub fn check(env: &Env, c: &Case, st: &mut Stats) -> CaseResult {
         Case::RawText(text) => {
             // digit separators may stand anywhere inside a literal, also around its `e`
             // (`.272__e___2________000000000`): judge the text without them
-            let stripped: String = text.chars().filter(|c| *c != '_' && *c != '\u{2009}').collect();
+            // (and the definitions lexer skips a backslash inside a literal: `1e\982810912`): keep
+            // only letters, digits and the operator characters
+            let stripped: String = text.chars().filter(|c| c.is_ascii_alphanumeric() || " \n\t^*<>.|-+()/".contains(*c)).collect();
             if crate::oracle::cost::has_huge_exponent(&stripped) || crate::oracle::cost::has_huge_power(&stripped) {
-                st.excluded("text contains a literal exponent or power above 5000 once digit separators are removed");
+                st.excluded("text contains a literal exponent or power above 5000 once separators and other non-operator characters are removed");
                 return Ok(());
             }
             if crate::oracle::cost::has_huge_exponent(text) {
@@ -793,17 +795,38 @@ pub fn check(env: &Env, c: &Case, st: &mut Stats) -> CaseResult {
             }
             st.eval();
             st.class("raw_text");
-            for cmd in [
-                json!({"cmd": "load_defs", "text": text, "fresh": true}),
-                json!({"cmd": "load_dates", "text": text}),
-                json!({"cmd": "load_currency", "json": text, "base": ""}),
-                json!({"cmd": "eval", "line": "1 + 1", "save_prev": false, "pinned": true}),
-            ] {
-                if call(env, st, &cmd, "loading a raw text")?.is_none() {
-                    return Ok(());
+            let run_all = |env: &Env, st: &mut Stats, text: &str| -> Result<Option<()>, String> {
+                for cmd in [
+                    json!({"cmd": "load_defs", "text": text, "fresh": true}),
+                    json!({"cmd": "load_dates", "text": text}),
+                    json!({"cmd": "load_currency", "json": text, "base": ""}),
+                    json!({"cmd": "eval", "line": "1 + 1", "save_prev": false, "pinned": true}),
+                ] {
+                    if call(env, st, &cmd, "loading a raw text")?.is_none() {
+                        return Ok(None);
+                    }
                 }
+                Ok(Some(()))
+            };
+            match run_all(env, st, text) {
+                Ok(_) => Ok(()),
+                Err(e) if e.starts_with("[hang]") => {
+                    // A text that no spelling rule above recognises may still be slow only because of
+                    // the size of a number it computes. Decide that by experiment: with every numeric
+                    // literal replaced by 1 nothing large is left, while a hang in the structure of
+                    // the text (a loop in the parser, the resolver, the loader) is still there.
+                    let reduced = crate::oracle::cost::reduce_numbers(text);
+                    env.hang_mode.set(false);
+                    match run_all(env, st, &reduced) {
+                        Ok(_) => {
+                            st.excluded("slow only because of the size of its numbers: the same text with every numeric literal replaced by 1 loads at once");
+                            Ok(())
+                        }
+                        Err(e2) => Err(format!("{} (and still with every numeric literal replaced by 1: {})", e, e2.chars().take(200).collect::<String>())),
+                    }
+                }
+                Err(e) => Err(e),
             }
-            Ok(())
         }
         Case::Currency { tape } => {
             let src = std::fs::read_to_string("/repo/core/tests/currency.snapshot.json").map_err(|e| format!("[infrastructure] {}", e))?;
